@@ -477,6 +477,11 @@ def cases(chunk):
         if c.get("kind") in ("tree", "seq") and "feat" in c:
             if i % 3 == 1:
                 c["names"] = 1 + (i // 3) % (len(NAME_QUADS) - 1)
+            if i % 5 == 2 and not c.get("big"):
+                # the track's positions are geographic or Earth-centred coordinates: x, y, z are then longitude /
+                # latitude / height (or X, Y, Z) and expressions read and write them all the same
+                c["coord"] = "GEO" if i % 2 else "ECEF"
+                c["coords_sys"] = c["coord"]
             if chunk["kind"] in ("rand", "seq") and i % 40 == 11 and not c.get("big"):
                 n = rng.choice([129, 130, 257, 300, 520, 1100])
                 feat = {k: [rng.choice(VALS) for _ in range(n)] for k in NAMES}
@@ -510,7 +515,9 @@ NAME_QUADS = [("a", "b", "s", "c"), ("X", "Y", "Z", "P"), ("T", "Idx", "A", "a1"
 
 def build(case):
     n = len(case["feat"]["a"])
-    tr = gen.make_track([tuple(p) for p in case["xyz"]], times_ms=case["times_ms"])
+    tr = gen.make_track([tuple(p) for p in case["xyz"]], times_ms=case["times_ms"], coord=case.get("coord", "ENU"))
+    if case.get("coords_sys"):
+        M.CTX.count("track_in_" + case["coords_sys"])
     if case.get("names"):
         tr = gen.NameProxy(tr, dict(zip(("a", "b", "s", "c"), NAME_QUADS[case["names"] % len(NAME_QUADS)])))
         M.CTX.count("less_usual_feature_names")
